@@ -434,8 +434,20 @@ func c10KJudge(e *c10K, r *Result) (out c10KOut) {
 	return out
 }
 
+// c10KDry: a DryRun handle shared by the generator and the Lean-question builder (fresh schema cache every 500 uses)
+var c10KDryDB *gorm.DB
+var c10KDryUses int
+
+func c10KDry() *gorm.DB {
+	if c10KDryDB == nil || c10KDryUses%500 == 499 {
+		c10KDryDB = c10OpenDry()
+	}
+	c10KDryUses++
+	return c10KDryDB
+}
+
 func genC10K(rng *rand.Rand, r *Result) *c10K {
-	db := c10OpenDry()
+	db := c10KDry()
 	for {
 		s := genC10SchemaK(rng, false)
 		// no column defaults on this suite (created/conflicting rows are judged on plain columns only)
@@ -612,7 +624,7 @@ func genC10K(rng *rand.Rand, r *Result) *c10K {
 // c10KLean: the row-selection question put to the Lean model for e: which rows does the key condition hit
 func c10KLean(e *c10K) ([][]interface{}, []int) {
 	c := &e.Case
-	db := c10OpenDry()
+	db := c10KDry()
 	sch, _, err := c10Parse(db, c.Schema)
 	if err != nil {
 		return nil, nil
@@ -668,10 +680,12 @@ func init() {
 	register("C10", func(r *Result, rng *rand.Rand, tier string) {
 		n := 1800
 		if tier == "thorough" {
-			n = 60000
+			n = 20000
 		} else if tier == "search" {
 			n = 4000
 		}
+		t0 := time.Now()
+		defer func() { r.Note("c10 key-rows+rowsel: n=%d took %.1fs", n, time.Since(t0).Seconds()) }()
 		type pend struct {
 			e     *c10K
 			out   c10KOut
